@@ -103,6 +103,25 @@ func runTimer(ops []string) []string {
 }
 
 // Reset(0) and Reset(d < 0) are short timers too: they fire (once) as soon as the runtime gets to it
+// measureLatency arms a Timer for d (directly, or re-arming one that was armed
+// for an hour) and measures how long the tick takes: never less than d.
+func measureLatency(d time.Duration, rearm bool) int64 {
+	t := timeutil.NewTimer()
+	defer t.Stop()
+	if rearm {
+		t.Reset(time.Hour)
+	}
+	start := time.Now()
+	t.Reset(d)
+	select {
+	case <-t.C:
+		t.Read = true
+		return int64(time.Since(start))
+	case <-time.After(d + 3*time.Second):
+		return -1
+	}
+}
+
 var opCoq = map[string]string{"Rs": "HReset true", "Rz": "HReset true", "Rn": "HReset true", "Rl": "HReset false", "W": "HWait", "T": "HTryRecv", "S": "HStop"}
 
 func main() {
@@ -168,6 +187,15 @@ func main() {
 		9223372036854775806, 9223372036854000000, 9223372036853999999, -9223372036854775808, -9223372036854775807, -9223372036854000000, -9223372036854000001, -9223372036854775808 + 775807} {
 		from = append(from, doFrom(us))
 	}
+	// where us*1000 stops fitting an int64 of nanoseconds (years 1677 and 2262), both sides
+	for _, base := range []int64{9223372036854775, 9223372036000000, 9223372037000000} {
+		for _, dlt := range []int64{-1000001, -1000000, -999999, -1, 0, 1, 2, 999, 1000, 145224, 999999, 1000000, 1000001} {
+			from = append(from, doFrom(base+dlt), doFrom(-base+dlt), doFrom(-base-dlt))
+		}
+		for i := 0; i < 40; i++ {
+			from = append(from, doFrom(base+rng.Int63n(4000000)-2000000), doFrom(-base+rng.Int63n(4000000)-2000000))
+		}
+	}
 	nfrom := 1500
 	if *tier == "thorough" {
 		nfrom = 50000
@@ -231,6 +259,24 @@ func main() {
 		timers = append(timers, timerCase{ops, runTimer(ops)})
 	}
 
+	// ---- latency cases: a tick never comes before the duration asked for
+	type latCase struct{ D, Elapsed int64 }
+	var lats []latCase
+	for _, d := range []time.Duration{950 * time.Microsecond, 999 * time.Microsecond, 1500 * time.Microsecond, 2900 * time.Microsecond,
+		3999 * time.Microsecond, 7300 * time.Microsecond, 500 * time.Microsecond, 1999999 * time.Nanosecond, 10 * time.Millisecond, 1} {
+		for _, rearm := range []bool{false, true} {
+			lats = append(lats, latCase{int64(d), measureLatency(d, rearm)})
+		}
+	}
+	nl := 10
+	if *tier == "thorough" {
+		nl = 200
+	}
+	for i := 0; i < nl; i++ {
+		d := time.Duration(rng.Int63n(12e6)) // up to 12 ms, any number of nanoseconds
+		lats = append(lats, latCase{int64(d), measureLatency(d, rng.Intn(2) == 0)})
+	}
+
 	// ---- write
 	var sb strings.Builder
 	var items []string
@@ -252,8 +298,13 @@ func main() {
 		items = append(items, "("+vh.List(o)+", "+vh.List(c.Obs)+")")
 	}
 	sb.WriteString("Definition timer_cases : list timer_case := " + vh.ListNL(items) + ".\n")
+	items = nil
+	for _, c := range lats {
+		items = append(items, fmt.Sprintf("(%s, %s)", vh.Z(c.D), vh.Z(c.Elapsed)))
+	}
+	sb.WriteString("Definition latency_cases : list latency_case := " + vh.ListNL(items) + "%Z.\n")
 	vh.WriteFile(*out, "cases.v", sb.String())
-	vh.WriteJSON(*out, "cases.json", map[string]interface{}{"micro": micro, "from": from, "timer": timers})
+	vh.WriteJSON(*out, "cases.json", map[string]interface{}{"micro": micro, "from": from, "timer": timers, "latency": lats})
 	nontriv := map[string]bool{}
 	for _, c := range micro {
 		r := c.Nsec % 1000
